@@ -47,7 +47,7 @@ def deviations(ctx):
     jobs.append((dict(module="AsmMC", cfg='CONSTANTS\n  N = 5\n  MaxSkip = 2\n  Algo = "legacy"\n  PerBranch = FALSE\nSPECIFICATION Spec\nINVARIANTS Correct\nCHECK_DEADLOCK FALSE\n',
                       name="dev_asm_legacy", expect_violation=True), "Correct"))
     # loader
-    for dev, inv in (('{"R1Ignored"}', "NilImpliesInForce"), ('{"NoThreadLock"}', ("NNPRequestedLoads", "NNPBeforeInstallSameThread")), ('{"SupportedFlags0"}', "SupportedTrue")):
+    for dev, inv in (('{"R1Ignored"}', "NilImpliesInForce"), ('{"NoThreadLock"}', ("NNPRequestedLoads", "NNPBeforeInstallSameThread")), ('{"SupportedFlags0"}', "SupportedTrue"), ('{"PrctlErrorSwallowed"}', ("NNPBeforeInstallSameThread", "PrctlFailureStopsLoad"))):
         jobs.append((dict(module="Loader", cfg=loaderfam.mc_cfg(dev=dev), name="dev_loader_" + dev.strip('{}"'), expect_violation=True), inv))
     # commands
     jobs.append((dict(module="ProfCache", cfg='CONSTANTS\n  NChunks = 4\n  Dev = {"InPlaceCache"}\nSPECIFICATION Spec\nINVARIANTS SecondRunSound ValidMeansComplete\nCHECK_DEADLOCK FALSE\n',
